@@ -309,6 +309,12 @@ func RunPolicy(file string, seed int64) (*Report, error) {
 		n++
 		kind := int((int64(n) + seed) % 5)
 		canary := fmt.Sprintf("CANARY-%d-%d", seed, n)
+		switch n % 7 { // plaintexts that look like the filter's own output must be filtered like any other
+		case 3:
+			canary = "encrypted:" + canary
+		case 5:
+			canary = "hmac-sha256:" + canary
+		}
 		f := &encrypt.Filter{}
 		switch v.V.Wr {
 		case "present":
@@ -536,6 +542,12 @@ func RunWalk(file string, seed int64) (*Report, error) {
 		rep.Vectors++
 		n++
 		canary := fmt.Sprintf("CANARY-%d-%d-plaintext", seed, n)
+		switch n % 5 {
+		case 2:
+			canary = "encrypted:" + canary
+		case 4:
+			canary = "hmac-sha256:" + canary
+		}
 		in := buildValue(v.Path, canary)
 		snap := buildValue(v.Path, canary)
 		f := &encrypt.Filter{Wrapper: w}
